@@ -1089,10 +1089,28 @@ fn classification_sweep(acc: &Acc<'_>) -> Value {
             })
             .sum::<u64>();
     }
+    // every ordered pair of code points of an Indic block under its own script tag (the prohibited vowel pairs are a
+    // table of pairs: one representative pair per script in the alphabets cannot tell a row that was added or lost)
+    let blocks: [(&str, u32); 9] = [("deva", 0x0900), ("beng", 0x0980), ("guru", 0x0A00), ("gujr", 0x0A80), ("orya", 0x0B00), ("telu", 0x0C00), ("knda", 0x0C80), ("mlym", 0x0D00), ("sinh", 0x0D80)];
+    let mut pair_total = 0u64;
+    for (name, start) in blocks.iter() {
+        let Some(sp) = SPECS.iter().find(|s| s.name == *name) else { continue };
+        let cps: Vec<char> = (*start..*start + 0x80).filter_map(char::from_u32).collect();
+        pair_total += cps
+            .par_iter()
+            .map(|&a| {
+                for &b in &cps {
+                    acc.process(sp.tag, sp.fam, sp.sub, &[a, b], "classification-sweep-pairs");
+                }
+                cps.len() as u64
+            })
+            .sum::<u64>();
+    }
+    let total = total + pair_total;
     acc.ctx.evals(total);
     acc.ctx.add_states(total);
     acc.ctx.add_transitions(total);
-    json!({"code_points": swept, "strings": total})
+    json!({"code_points": swept, "strings": total, "indic_block_pairs": pair_total})
 }
 
 /// Arabic: every (class < 33)^a shadda^b (class > 33)^c pattern (distinct characters of equal class
